@@ -3,6 +3,8 @@ import Pyunicorn.Model.Coupling
 import Pyunicorn.Model.Coupling2
 import Pyunicorn.Model.CouplingKnn
 import Pyunicorn.Model.Coupling3
+import Pyunicorn.Model.Coupling4
+import Pyunicorn.Generated.StructC10
 /-! Line-protocol driver for C10: one request per line on stdin, one answer per line. -/
 open Pyunicorn Pyunicorn.Proto Pyunicorn.Coupling
 
@@ -132,7 +134,7 @@ def answer (toks : List String) : String :=
       | none => "singular"
       | some P =>
         let cells := (rng N).flatMap fun i => (rng N).map fun j => (i, j)
-        let others := fun (i j : Nat) => (rng N).filter fun k => k != i && k != j
+        let others := othersOf N
         (if isInverse G P N then "1" else "0") ++ "|" ++
           showRats (cells.map fun c => normInvSq P c.1 c.2) ++ "|" ++
           showRats (cells.map fun c => parCorrSqG G (others c.1 c.2) c.1 c.2) ++ "|" ++
@@ -182,6 +184,21 @@ def answer (toks : List String) : String :=
       let x : Nat → Nat → Rat := fun i k => d (i * T + k)
       let sh : Nat → Nat → Nat := fun i s => p (i * T + s)
       showRats ((rng N).flatMap fun i => (rng N).map fun j => shufSurrSq x sh cr 0 i j)
+  | ["qocc", bins, row] =>
+      let b := bins.toNat!
+      let r := rats row
+      showNats ((List.range (b + 2)).map fun (a : Nat) => qbinOccupancy r b (Int.ofNat a - 1))
+  | ["lagstore", zs] =>
+      toString Pyunicorn.Generated.StructC10.lagBitsC ++ ";" ++
+        showInts ((ints zs).map (wrapBits Pyunicorn.Generated.StructC10.lagBitsC)) ++ ";" ++
+        showInts ((ints zs).map wrap8)
+  | ["itsqfn", t, n, tm, past, mit, flat] =>
+      let T := t.toNat!; let N := n.toNat!; let tm := tm.toNat!; let past := past.toNat!
+      let mit := mit == "1"
+      let d := ratFn (rats flat)
+      let x : Nat → Nat → Rat := fun i k => d (i * T + k)
+      let cells := (rng N).flatMap fun i => (rng N).flatMap fun j => (rng (tm + 1)).map fun tau => (i, j, tau)
+      showRats (cells.map fun c => itSqFn x T tm past mit c.1 c.2.1 c.2.2)
   | _ => "bad-request"
 
 def main : IO Unit := runDriver answer
